@@ -10,8 +10,7 @@
 #endif
 
 size_t g_lp_sum[9];
-size_t g_lp_total, g_lp_t;
-unsigned char g_lp_v;
+size_t g_lp_c;
 
 #if VERIF_IS_NATIVE
 #define LP_FOLD(x, lo, hi) if ((x) < (lo) || (x) > (hi)) x = (lo) + (size_t)(x) % ((size_t)(hi) - (size_t)(lo) + 1u);
@@ -22,11 +21,11 @@ unsigned char g_lp_v;
 #define LP_GHOSTS() \
   GHOST_HAVOC(); \
   IN(size_t, in_src_pos) IN(size_t, in_snk_pos) IN(size_t, in_b) \
-  IN(size_t, in_src_nhard) IN(size_t, in_snk_nhard) IN(size_t, in_lp_t) \
+  IN(size_t, in_src_nhard) IN(size_t, in_snk_nhard) IN(size_t, in_lp_c) \
   IN(uint8_t, in_val) IN(uint8_t, in_snk_val) IN(int, in_src_err) IN(int, in_snk_err) IN(int, in_dof) \
   LP_FOLD(in_src_pos, 0, SIZE_MAX / 2) LP_FOLD(in_snk_pos, 0, SIZE_MAX / 2) \
   g_src_pos = in_src_pos; g_snk_pos = in_snk_pos; g_b = in_b; \
-  g_src_nhard = in_src_nhard; g_snk_nhard = in_snk_nhard; g_lp_t = in_lp_t; \
+  g_src_nhard = in_src_nhard; g_snk_nhard = in_snk_nhard; g_lp_c = in_lp_c; \
   g_val = in_val; g_snk_val = in_snk_val; g_src_err = in_src_err; g_snk_err = in_snk_err; \
   g_lp_dof = (in_dof != 0);
 
@@ -198,22 +197,17 @@ void h_flenp_buffer_encode_n(void)
 #define LP_EACH(M) M(0) M(1) M(2) M(3) M(4) M(5) M(6) M(7)
 #define LP_LAST(M) M(8)
 #endif
-/* the ghost description of the list: computed (native replay) resp. arbitrary
- * and constrained by LP_CHUNKS_OK in the contract's precondition (proof) */
+/* the ghost prefix sums: computed (native replay) resp. arbitrary and
+ * constrained by LP_CHUNKS_OK in the contract's precondition (proof) */
 #if VERIF_IS_NATIVE
 #define LP_ONE_SUM(i)
 #define LP_SUMS(oc) \
   for (size_t i_ = 0; i_ <= LP_CMAX; i_++) g_lp_sum[i_] = 0; \
-  for (size_t i_ = (oc)->active; i_ < (oc)->chunks; i_++) { \
-    g_lp_sum[i_ + 1] = g_lp_sum[i_] + ((oc)->chunk[i_].used - (oc)->chunk[i_].offset); \
-    if (g_lp_sum[i_] <= g_lp_t && g_lp_t < g_lp_sum[i_ + 1]) \
-      g_lp_v = (oc)->chunk[i_].data[(oc)->chunk[i_].offset + (g_lp_t - g_lp_sum[i_])]; \
-  } \
-  g_lp_total = g_lp_sum[(oc)->chunks];
+  for (size_t i_ = (oc)->active; i_ < (oc)->chunks; i_++) \
+    g_lp_sum[i_ + 1] = g_lp_sum[i_] + ((oc)->chunk[i_].used - (oc)->chunk[i_].offset);
 #else
 #define LP_ONE_SUM(i) IN(size_t, in_sum##i) g_lp_sum[i] = in_sum##i;
-#define LP_SUMS(oc) LP_EACH(LP_ONE_SUM) LP_LAST(LP_ONE_SUM) \
-  IN(size_t, in_total) IN(uint8_t, in_lp_v) g_lp_total = in_total; g_lp_v = in_lp_v;
+#define LP_SUMS(oc) LP_EACH(LP_ONE_SUM) LP_LAST(LP_ONE_SUM)
 #endif
 #define LP_CHUNKS(oc) \
   IN(size_t, in_chunks) IN(size_t, in_active) \
